@@ -2,6 +2,10 @@ package main
 
 import (
 	"go/ast"
+	"go/token"
+	"go/types"
+	"sort"
+	"strconv"
 	"strings"
 )
 
@@ -9,6 +13,8 @@ func init() {
 	reg("C02.carry", ruleCarry)
 	f := "stage1_find_marks_amd64.go"
 	regWitness(
+		Witness{Rule: "C02.carry", Name: "quote-state-per-buffer", File: f, Old: "\tprev_iter_inside_quote := uint64(0) // either all zeros or all ones\n", New: "", After: "", Old2: "\t\tindex := indexChan{}\n", New2: "\t\tindex := indexChan{}\n\t\tprev_iter_inside_quote := uint64(0)\n", Breaks: "a string spanning an index-buffer boundary is closed at the boundary"},
+		Witness{Rule: "C02.carry", Name: "pseudo-pred-starts-0", File: f, Old: "prev_iter_ends_pseudo_pred := uint64(1)", New: "prev_iter_ends_pseudo_pred := uint64(0)", Breaks: "a document starting with an atom loses its first index"},
 		Witness{Rule: "C02.carry", Name: "length-not-reduced", File: f, Old: "\t\t\tposition -= stripped_index\n\t\t\tindex.length -= 1\n", New: "\t\t\tposition -= stripped_index\n", Breaks: "the dangling index is delivered twice at an index-buffer boundary"},
 		Witness{Rule: "C02.carry", Name: "position-not-rebased", File: f, Old: "\t\tbuf = buf[processed:]\n\t\tposition -= processed\n", New: "\t\tbuf = buf[processed:]\n", Breaks: "the end-of-message test looks at the wrong byte after the first buffer"},
 		Witness{Rule: "C02.carry", Name: "restored-index-not-first", File: f, Old: "index.indexes[0] = uint32(stripped_index)", New: "index.indexes[1] = uint32(stripped_index)", Breaks: "the carried index is lost"},
@@ -99,9 +105,167 @@ func ruleCarry(c *Ctx) {
 		}
 		c.Check(ok, "findStructuralIndices:"+w.site, pos, "`"+w.text+"`"+map[bool]string{true: " under `" + w.guard + "`", false: ""}[w.guard != ""], w.why+" (expected `"+w.text+"`"+map[bool]string{true: " under `" + w.guard + "`", false: ""}[w.guard != ""]+")", "a document whose index buffer fills up inside a string/atom (more than 1408 structurals, the last one not a markup character)")
 	}
+	// persistent state: every variable whose address goes to a stage-1 kernel (and the carry/total of the driver) lives
+	// across the buffer loop: it is declared before the loop, with the kernel's start value, and inside the loop it is
+	// only ever overwritten on the way out (the error sentinel before `break`).
+	var loop *ast.ForStmt
+	for _, s := range fd.Body.List {
+		if f, ok := s.(*ast.ForStmt); ok && loop == nil {
+			loop = f
+		}
+	}
+	if loop == nil {
+		c.Unresolved("findStructuralIndices:loop", "buffer loop not found")
+		return
+	}
+	startVal := map[string]string{"prev_iter_ends_odd_backslash": "0", "prev_iter_inside_quote": "0", "error_mask": "0", "prev_iter_ends_pseudo_pred": "1", "carried": "0", "position": "18446744073709551615"}
+	type pst struct {
+		param string
+		obj   types.Object
+	}
+	var persistent []pst
+	seenP := map[types.Object]bool{}
+	nKernelCalls := 0
+	ast.Inspect(loop.Body, func(n ast.Node) bool {
+		call, ok := n.(*ast.CallExpr)
+		if !ok {
+			return true
+		}
+		fn, _ := p.Callee(call).(*types.Func)
+		if fn == nil || !strings.HasPrefix(fn.Name(), "find_structural_bits_in_slice") {
+			return true
+		}
+		nKernelCalls++
+		sig := fn.Type().(*types.Signature)
+		for i, a := range call.Args {
+			u, ok := ast.Unparen(a).(*ast.UnaryExpr)
+			if !ok || u.Op != token.AND || i >= sig.Params().Len() {
+				continue
+			}
+			id, ok := ast.Unparen(u.X).(*ast.Ident)
+			if !ok {
+				continue // &index.length: per-buffer by design
+			}
+			o := p.ObjOf(id)
+			pn := sig.Params().At(i).Name()
+			if _, tracked := startVal[pn]; !tracked {
+				continue
+			}
+			if !seenP[o] {
+				seenP[o] = true
+				persistent = append(persistent, pst{pn, o})
+			}
+		}
+		return true
+	})
+	c.MinCount("stage-1 kernel calls in the buffer loop", nKernelCalls, 4)
+	c.MinCount("persistent kernel state variables", len(persistent), 6)
+	for _, nm := range []string{"stripped_index", "indexTotal"} {
+		var o types.Object
+		ast.Inspect(fd, func(n ast.Node) bool {
+			if id, ok := n.(*ast.Ident); ok && id.Name == nm && o == nil {
+				o = p.ObjOf(id)
+			}
+			return true
+		})
+		if o == nil {
+			c.Unresolved("findStructuralIndices:"+nm, "driver variable not found")
+			continue
+		}
+		persistent = append(persistent, pst{"", o})
+	}
+	// per kernel parameter exactly one variable (both kernels and both call sites share the state)
+	perParam := map[string]int{}
+	for _, ps := range persistent {
+		if ps.param != "" {
+			perParam[ps.param]++
+		}
+	}
+	for _, pn := range sortedKeys(startVal) {
+		c.Check(perParam[pn] == 1, "findStructuralIndices:state:"+pn+":shared", p.Pos(loop), "all kernel calls pass the same variable for "+pn, "the kernel calls of the buffer loop do not all pass the same variable for `"+pn+"` ("+strconv.Itoa(perParam[pn])+" different variables): state is not carried from one call to the next", "a document larger than 64 bytes")
+	}
+	for _, ps := range persistent {
+		o := ps.obj
+		key := "findStructuralIndices:state:" + o.Name()
+		inLoop := o.Pos() >= loop.Pos() && o.Pos() < loop.End()
+		c.Check(!inLoop, key+":scope", p.Pos(loop), "declared before the buffer loop", "`"+o.Name()+"` is declared inside the buffer loop: it is re-initialised for every index buffer, so state carried across an index-buffer boundary (open string, pending backslash, carried bits, running position) is lost", "a document with more than 1408 structurals whose buffer boundary falls inside a string or after a backslash")
+		if ps.param != "" && !inLoop {
+			// start value
+			got := ""
+			ast.Inspect(fd.Body, func(n ast.Node) bool {
+				switch x := n.(type) {
+				case *ast.AssignStmt:
+					if x.Tok == token.DEFINE {
+						for i, l := range x.Lhs {
+							if id, ok := l.(*ast.Ident); ok && p.Info.Defs[id] == o && i < len(x.Rhs) {
+								if cv := p.ConstOf(x.Rhs[i]); cv != nil {
+									got = cv.ExactString()
+								}
+							}
+						}
+					}
+				case *ast.ValueSpec:
+					for i, id := range x.Names {
+						if p.Info.Defs[id] == o {
+							got = "0"
+							if i < len(x.Values) {
+								got = ""
+								if cv := p.ConstOf(x.Values[i]); cv != nil {
+									got = cv.ExactString()
+								}
+							}
+						}
+					}
+				}
+				return true
+			})
+			c.Check(got == startVal[ps.param], key+":start", p.Pos(fd), "starts at "+startVal[ps.param], "`"+o.Name()+"` (kernel parameter "+ps.param+") starts at "+got+" instead of "+startVal[ps.param], "the first 64-byte block of any document")
+		}
+		if ps.param == "" || ps.param == "position" {
+			continue // driver-owned: their updates are checked one by one above
+		}
+		// kernel-owned state: plain assignments inside the loop only directly before `break`
+		okAssign := true
+		var walkB func(list []ast.Stmt)
+		walkB = func(list []ast.Stmt) {
+			for i, s := range list {
+				if as, ok := s.(*ast.AssignStmt); ok {
+					for _, l := range as.Lhs {
+						if id, ok := ast.Unparen(l).(*ast.Ident); ok && p.ObjOf(id) == o {
+							next := i+1 < len(list)
+							if next {
+								_, next = list[i+1].(*ast.BranchStmt)
+							}
+							if !next || list[i+1].(*ast.BranchStmt).Tok != token.BREAK {
+								okAssign = false
+							}
+						}
+					}
+				}
+				ast.Inspect(s, func(n ast.Node) bool {
+					if b, ok := n.(*ast.BlockStmt); ok {
+						walkB(b.List)
+						return false
+					}
+					return true
+				})
+			}
+		}
+		walkB(loop.Body.List)
+		c.Check(okAssign, key+":owned", p.Pos(loop), "inside the buffer loop only the kernels update it (the driver writes it only on the way out)", "`"+o.Name()+"` is overwritten by the driver inside the buffer loop on a path that continues scanning", "")
+	}
 	// the strip branch is the else-branch of the completion test, and the send comes after it
 	strip := find("position-=stripped_index")
 	send := find("pj.indexChans<-index")
 	okOrder := strip != nil && send != nil && strip.node.Pos() < send.node.Pos() && has(strip.guards, "!(uint64(len(buf))==processed)")
 	c.Check(okOrder, "findStructuralIndices:strip-before-send", p.Pos(fd), "a dangling index is stripped only when the message is not complete, before the buffer is sent", "the dangling index is not stripped before the buffer is handed over (or also at the end of the message)", "")
+}
+
+func sortedKeys(m map[string]string) []string {
+	var ks []string
+	for k := range m {
+		ks = append(ks, k)
+	}
+	sort.Strings(ks)
+	return ks
 }
